@@ -53,6 +53,8 @@ pub use crate::encoder::EncoderBuilder;
 pub use crate::encoder::SourceBlockEncoder;
 pub use crate::encoder::SourceBlockEncodingPlan;
 pub use crate::encoder::calculate_block_offsets;
+#[cfg(all(feature = "std", raptorq_verif))]
+pub use crate::encoder::verif_plan_cache;
 #[cfg(feature = "python")]
 pub use crate::python::Decoder;
 #[cfg(feature = "python")]
